@@ -39,7 +39,7 @@ def canon(smi):
         return None
     for a in m.GetAtoms():
         a.SetAtomMapNum(0)
-    return Chem.MolToSmiles(m, isomericSmiles=False)
+    return R._smiles_without_stereo(m)
 
 
 def total_h(g):
@@ -72,6 +72,16 @@ def check_molecule(ctx, smi, tag):
     ref = canon(smi)
     if ref is None:
         ctx.count("molecules_not_sanitisable")
+        return
+    gap = R.representation_gap(smi)
+    if gap:
+        # recorded limits of the graph layer (no isotope label, numeric bond order only): only the plain round trip is judged
+        ctx.count("molecules_with_representation_gap")
+        g = smiles_to_graph(smi)
+        s2 = graph_to_smi(g) if g is not None else None
+        if s2 is None or canon(s2) != ref:
+            ctx.violation("smiles-roundtrip", {**wit, "out": s2}, f"SMILES -> graph -> SMILES changed the molecule: {smi!r} -> {s2!r}", finding=gap)
+        ctx.case(("mol", ref), nontrivial=True, sample={"space": tag, "smiles": smi, "roundtrip": s2})
         return
     g = smiles_to_graph(smi)
     if g is None:
@@ -338,6 +348,11 @@ CHARGED_RXNS = [
 ]
 
 
+# isotope-labelled molecules and molecules with dative / quadruple bonds (sanitisable, legal SMILES)
+GAP_MOLECULES = ["[2H]O[2H]", "[13CH4]", "C[13C](=O)O", "[18OH2]", "CC(=O)[18OH]", "C[P](C)(C)->[Pd]", "CS(C)->[Pt]", "[NH3]->[BH3]",
+                 "c1ccn(->[Cu+])cc1", "C[N+](C)(C)[O-]", "[Mo]$[Mo]"]
+
+
 def run(ctx):
     rng = ctx.rng
     for i, r in enumerate(CHARGED_RXNS):
@@ -345,7 +360,7 @@ def run(ctx):
             ctx.count("multiply_charged_rules")
             check_reaction(ctx, r, "hand-written reactions with charges of magnitude >= 2 and non-trivial numbering")
             check_reaction(ctx, corpus.renumber(r, rng), "hand-written reactions with charges of magnitude >= 2 and non-trivial numbering")
-    mols = list(corpus.molecules()) + corpus.VENDORED_MOLECULES + ["[O-2]", "[Mg+2]", "O=S(=O)([O-])[O-]", "[Fe+3]", "[N-3]"]
+    mols = list(corpus.molecules()) + corpus.VENDORED_MOLECULES + ["[O-2]", "[Mg+2]", "O=S(=O)([O-])[O-]", "[Fe+3]", "[N-3]"] + GAP_MOLECULES
     for i, s in enumerate(mols):
         if ctx.mine(i):
             check_molecule(ctx, s, "corpus molecules + vendored list")
